@@ -115,6 +115,12 @@ impl SharedTaskRunner {
     where
         F: FnOnce(&TaskContext) -> Result<(), BoxError> + Send + Sync + 'static,
     {
+        #[cfg(feature = "verif")]
+        if crate::verif::inline_tasks() {
+            let ctx = TaskContext::new(self.inner.pager.clone(), self.inner.coordinator.clone());
+            return task(&ctx).map_err(|e| TaskError::TaskFailed(e.to_string()));
+        }
+
         let (tx, rx) = mpsc::channel();
         let pager = self.inner.pager.clone();
         let coordinator = self.inner.coordinator.clone();
@@ -142,6 +148,12 @@ impl SharedTaskRunner {
         F: FnOnce(&TaskContext) -> Result<T, BoxError> + Send + 'static,
         T: Send + 'static,
     {
+        #[cfg(feature = "verif")]
+        if crate::verif::inline_tasks() {
+            let ctx = TaskContext::new(self.inner.pager.clone(), self.inner.coordinator.clone());
+            return task(&ctx).map_err(|e| TaskError::TaskFailed(e.to_string()));
+        }
+
         let (tx, rx) = mpsc::channel::<Result<T, BoxError>>();
         let pager = self.inner.pager.clone();
         let coordinator = self.inner.coordinator.clone();
